@@ -331,3 +331,69 @@ Proof.
       repeat split; try assumption.
     + unfold msg_equiv. rewrite F1, F2, F3, F4, F5, F6, F7, EO. repeat split; assumption.
 Qed.
+
+(* ---------- corollaries ---------- *)
+Definition rr_count (l : list rrset) : Z := fold_right (fun rs acc => rrset_count rs + acc) 0 l.
+
+Lemma SecDesc_count : forall l ds, SecDesc l ds -> Forall wf_rrset l -> zlen ds = rr_count l.
+Proof.
+  induction 1 as [|rs l ds1 ds2 F2 SD IH]; intros WF; [reflexivity|].
+  inversion WF as [|? ? W1 WF']; subst. cbn [rr_count fold_right]. rewrite zlen_app', (IH WF').
+  f_equal. destruct W1 as (_ & _ & NE & _). unfold rrset_count.
+  apply Forall2_len in F2. destruct (rrds rs) eqn:E; [congruence|]. unfold zlen. f_equal. exact F2.
+Qed.
+
+(* the header counts are the numbers of records present, and they account for every octet *)
+Theorem counts_exact_lemma m ms rp w :
+  WfMsg m -> mtsig m = None -> to_wire m None ms rp false 0 = Ok w ->
+  exists body,
+    w = hdr_bytes (mid m) (mflags m) (zlen (mq m)) (rr_count (man m)) (rr_count (mau m))
+                  (rr_count (mad m) + opt_count (mopt m)) ++ body /\
+    exists (qs : list qd) (ds1 ds2 ds3 : list rrd) (e0 e1 e2 e3 : nat),
+      zlen qs = zlen (mq m) /\ zlen ds1 = rr_count (man m) /\ zlen ds2 = rr_count (mau m) /\
+      zlen ds3 = rr_count (mad m) /\
+      QChain w 12 qs e0 /\ Chain w e0 ds1 e1 /\ Chain w e1 ds2 e2 /\ Chain w e2 ds3 e3 /\
+      match mopt m with
+      | Some o' => exists owner' wb, RRreads w e3 owner' tOPT (opayload o') (oflags o') [FRest] [PB wb] (length w)
+      | None => e3 = length w
+      end.
+Proof.
+  intros WF NT H. unfold to_wire in H. apply bind_ok in H. destruct H as (r & HR & H). injection H as <-.
+  destruct (render_structure m ms rp r WF NT HR)
+    as (qs & ds1 & ds2 & ds3 & owner' & wb & body & e0 & e1 & e2 & e3 & Eo & Hid & Hfl & L0 & L1 & L2 & L3 &
+        QC & C1 & C2 & C3 & QD & SD1 & SD2 & SD3 & HO & _).
+  destruct WF as [W0 WQ WA WU WD KA KU KD WO].
+  assert (Z0 : zlen qs = zlen (mq m)) by (unfold zlen; f_equal; symmetry; eapply Forall2_len; exact QD).
+  pose proof (SecDesc_count _ _ SD1 WA) as Z1. pose proof (SecDesc_count _ _ SD2 WU) as Z2.
+  pose proof (SecDesc_count _ _ SD3 WD) as Z3.
+  exists body. split; [rewrite Eo, Z0, Z1, Z2, Z3; reflexivity|].
+  exists qs, ds1, ds2, ds3, e0, e1, e2, e3. repeat split; try assumption.
+  destruct (mopt m); [|exact HO]. destruct HO as (A & _). eauto.
+Qed.
+
+(* the compression table at the end of rendering is sound w.r.t. the final octets; and every
+   single name write keeps it sound and is decoded by the independent decoder NameM.from_wire *)
+Theorem render_table_sound_lemma m ms rp r :
+  WfMsg m -> mtsig m = None -> to_wire_st m None ms rp false 0 = Ok r -> TableSound (out r) (tbl r).
+Proof.
+  intros WF NT HR.
+  destruct (render_structure m ms rp r WF NT HR)
+    as (qs & ds1 & ds2 & ds3 & owner' & wb & body & e0 & e1 & e2 & e3 & _ & _ & _ & _ & _ & _ & _ &
+        _ & _ & _ & _ & _ & _ & _ & _ & _ & TS).
+  exact TS.
+Qed.
+
+Theorem name_write_sound_lemma n c file t file' t' :
+  TableSound file t -> name_ok n -> name_to_wire n None c file t = Ok (file', t') ->
+  exists em n',
+    file' = file ++ em /\ TableSound file' t' /\ ci_equal n' n /\
+    NameM.from_wire file' (length file) = Ok (n', length em) /\
+    (forall ext endp, (length file' <= endp)%nat -> nm_from_wire (file' ++ ext) endp (length file) = Ok (n', length file')).
+Proof.
+  intros TS NO H. rewrite name_to_wire_em in H. unfold run_em in H.
+  apply bind_ok in H. destruct H as ([em t1] & HE & H). injection H as <- <-. cbn [fst snd].
+  destruct (nm_em_sound _ _ _ _ _ _ TS NO HE) as (TS1 & n' & CI & NO1 & D).
+  exists em, n'. split; [reflexivity|]. split; [exact TS1|]. split; [exact CI|]. split.
+  - rewrite (Dec_from_wire _ _ _ _ D (proj1 NO1)). f_equal. f_equal. rewrite app_length. lia.
+  - intros ext endp He. apply nm_read; assumption.
+Qed.
